@@ -19,7 +19,7 @@ def is_c10(f):
         return True
     if f.kind == "K1" and ("slot-overwrite:server" in f.key or "buffered_err" in f.key):
         return True
-    if f.kind in ("K4", "K5") and ("local:si" in f.key or "buffered_err" in f.what):
+    if f.kind in ("K4", "K5") and ("local:si" in f.key or "buffered_err" in f.what or "server's stream" in f.what):
         return True
     if f.kind == "K9" and "server" in f.key:
         return True
